@@ -175,6 +175,9 @@ std::string ebpps_alloc_key(const std::string& id, const std::string& msg) {
   if ((id == "alloc-default-instance" || id == "dealloc-default-instance") && msg.find("[during ebpps_sketch::get_result]") != std::string::npos) return K_EBPPS_RESULT;
   return "";
 }
+// cpc_union: the accumulator sketch object is allocated with the union's allocator, but released with
+// accumulator->get_allocator(), which `*accumulator = sketch` (first sparse input, equal lg_k) replaces by the input's allocator
+const char* K_CPC_UNION_ACC = "C19|cpc-union|update|accumulator-object-released-through-the-adopted-input-allocator|first-sparse-input-with-equal-lg_k-and-unequal-allocator";
 const char* K_VAROPT_UNION_ASSIGN = "C19|varopt-union|copy-assign|does-not-compile|any-copy-assignment";
 
 std::vector<FamSpec>& specs() { static std::vector<FamSpec> v; return v; }
@@ -241,6 +244,9 @@ int main(int argc, char** argv) {
       };
       sp.leaky_keys.insert(varopt_union_result_key());
     }
+    if (sp.sub == "cpc-union") sp.alloc_key = [](const std::string& id, const std::string& msg, const char*) {
+      return id == "dealloc-wrong-instance" && msg.find("track_alloc<datasketches::cpc_sketch_alloc<") != std::string::npos ? std::string(K_CPC_UNION_ACC) : std::string();
+    };
     if (f == "ebpps") sp.alloc_key = [](const std::string& id, const std::string& msg, const char*) { return ebpps_alloc_key(id, msg); };
     if (f == "kll" || f == "req" || f == "classic") sp.alloc_key = [f](const std::string& id, const std::string& msg, const char*) { return quant_alloc_key(f, id, msg); };
   }
